@@ -153,7 +153,8 @@ def gen_spec(rng, size=None):
     jd0 = j0 * dt / 3600.0
     if size is None:
         size = rng.choice(["s", "s", "m", "m", "l"])
-    target = {"s": rng.randint(40, 90), "m": rng.randint(90, 200), "l": rng.randint(200, 400)}[size]
+    target = {"s": rng.randint(40, 90), "m": rng.randint(90, 200), "l": rng.randint(200, 400),
+              "xl": rng.randint(2500, 4000)}[size]
     z_base = _r3(rng.uniform(-300, 0))
     z0 = _r3(z_base + rng.uniform(5, 30) * jd0)
     segments = []
